@@ -103,6 +103,135 @@ def generate(kinds=None):
     return out, stale, fns
 
 
+def generate_agree():
+    """C03 at the level of one cell: the real `reduce` of the index-cube class and of the array-cube class of the same
+    aggregate, executed on the SAME cell symbols (V, M, Wv, S - the meaning of the regions is the sidecar's, checked on
+    real fills by the bounded part), give the same missing flag and, where not missing, the same value, and that value is
+    the direct per-cell aggregate (count: rows or weighted count; valid_count / sum: S; mean: S / Wv).
+    -> (list of (name, verdict, seconds, model, meta), stale, functions)"""
+    from contracts import reduce as R
+
+    V, M = z3.Ints("V M")
+    Wv, S = z3.Reals("Wv S")
+    out, stale, fns, trees = [], [], {}, {}
+    by_kind = {}
+    for mod, cls, _, regions, kind in R.TARGETS:
+        by_kind.setdefault(kind, {})[mod] = (cls, regions)
+    for kind, pair in by_kind.items():
+        if set(pair) != {"ffuncs", "xfuncs"}:
+            continue
+        methods = {}
+        for mod, (cls, regions) in pair.items():
+            if mod not in trees:
+                src = env.read_source(mod + ".py")
+                trees[mod] = (src, ast.parse(src))
+            src, tree = trees[mod]
+            try:
+                fn = CX.get_method(tree, cls, "reduce")
+            except CX.Unsupported as e:
+                stale.append(("%s.%s.reduce" % (mod, cls), str(e)))
+                continue
+            methods[mod] = (fn, regions, cls)
+            fns["%s.%s.reduce" % (mod, cls)] = {"source_sha256": env.sha(ast.get_source_segment(src, fn))}
+        if len(methods) != 2:
+            continue
+        for ignore in (False, True):
+            for unweighted in (True, False):
+                base = [V >= 0, M >= 0, Wv >= 0, z3.Implies(V == 0, Wv == 0)]
+                if unweighted:
+                    base.append(Wv == z3.ToReal(V))
+                sem = {"V": V, "M": M, "Wv": Wv, "S": S, "RowsOrWeighted": z3.ToReal(V + M) if unweighted else S,
+                       "VorWv": z3.ToReal(V) if unweighted else Wv, "VifIgnoreElseRows": V if ignore else V + M}
+                if kind == "count" and unweighted:
+                    base.append(M == 0)
+                if kind in ("count", "valid_count") and not (kind == "count" and unweighted):
+                    base.append(z3.Implies(V == 0, S == 0))
+                if kind == "valid_count" and unweighted:
+                    base.append(S == z3.ToReal(V))
+                direct = {"count": sem["RowsOrWeighted"], "valid_count": S, "sum": S, "mean": S / Wv}[kind]
+                for fmt in ("nan", "tuple"):
+                    tag = "[%s,%s,%s,%s]" % (kind, "ignore" if ignore else "propagate", "unweighted" if unweighted else "weighted", fmt)
+                    res = {}
+                    for mod, (fn, regions, cls) in methods.items():
+                        try:
+                            res[mod] = CX.run_reduce(fn, {"ignore": ignore, "fmt": fmt, "unweighted": unweighted}, {k: sem[v] for k, v in regions.items()})
+                        except CX.Unsupported as e:
+                            stale.append(("%s.%s.reduce%s" % (mod, cls, tag), str(e)))
+                    if len(res) != 2:
+                        continue
+                    (vf, mf), (vx, mx) = res["ffuncs"], res["xfuncs"]
+                    meta = {"class": methods["ffuncs"][2] + "/" + methods["xfuncs"][2], "module": "ffuncs", "kind": kind, "ignore": ignore, "unweighted": unweighted, "fmt": fmt}
+                    for nm, hy, goal in (("cube-types-agree-on-missing", base, mf == mx),
+                                         ("cube-types-agree-on-value", base + [z3.Not(mf), z3.Not(mx)], vf == vx),
+                                         ("index-cube-value-is-direct-per-cell-aggregate", base + [z3.Not(mf)], vf == direct),
+                                         ("array-cube-value-is-direct-per-cell-aggregate", base + [z3.Not(mx)], vx == direct)):
+                        r, secs, model = _solve(hy, goal)
+                        out.append(("reduce/%s%s" % (nm, tag), r, secs, model, dict(meta, module="xfuncs" if nm.startswith("array") else "ffuncs")))
+    return out, stale, fns
+
+
+def replay_agree(meta, model):
+    """One-dimension cube whose cell 1 has V valid and M missing rows: both cube types and the direct computation."""
+    import numpy as np
+
+    env.import_catii()
+    from catii import ccube, xcube
+    from ..rtc.speclib import mk
+
+    V, M = int(model.get("V", 0)), int(model.get("M", 0))
+    if V + M > 64:
+        return None, None
+    n = V + M
+    dense = np.array([1] * n + [0], dtype=np.int64)
+    fact = np.array([2.0 + i for i in range(V)] + [np.nan] * M + [1.0])
+    kind, ignore, unweighted = meta["kind"], meta["ignore"], meta["unweighted"]
+    weights = None if unweighted else np.array([1.5 + 0.25 * i for i in range(n)] + [1.0])
+    fmt = float("nan") if meta["fmt"] == "nan" else (-7.0, False)
+    w = 1.0 if weights is None else weights[:V]
+    direct = {"count": float(n) if unweighted else float(np.sum(w)) if True else None, "valid_count": float(V) if unweighted else float(np.sum(w)),
+              "sum": float(np.sum(fact[:V] * w)), "mean": float(np.sum(fact[:V] * w) / (V if unweighted else np.sum(w))) if V else float("nan")}[kind]
+    if kind == "count" and not unweighted:
+        wc = np.array([1.5 + 0.25 * i for i in range(V)] + [np.nan] * M + [1.0])
+        direct = float(np.sum(wc[:V]))
+    got = {}
+    for name, C in (("ccube", ccube([mk(dense, 0)], (2,))), ("xcube", xcube([dense], (2,)))):
+        try:
+            if kind == "count":
+                res = C.count(weights=None if unweighted else wc, ignore_missing=ignore, return_missing_as=fmt)
+            else:
+                res = getattr(C, kind)(fact, weights=weights, ignore_missing=ignore, return_missing_as=fmt)
+        except Exception as e:  # noqa
+            return "%s raised %s: %s" % (name, type(e).__name__, e), {"V": V, "M": M}
+        if isinstance(res, tuple):
+            got[name] = (float(res[0][1]), not bool(res[1][1]))
+        else:
+            got[name] = (float(res[1]), bool(np.isnan(res[1])))
+    desc = {"dense": dense.tolist(), "fact": [None if x != x else x for x in fact.tolist()], "weights": None if weights is None else weights.tolist(),
+            "aggregate": kind, "ignore_missing": ignore, "cell": 1, "return_missing_as": meta["fmt"]}
+    (vf, mf), (vx, mx) = got["ccube"], got["xcube"]
+    close = lambda a, b: abs(a - b) <= 1e-9 * max(1.0, abs(b))  # noqa
+    if mf != mx or (not mf and not close(vf, vx)) or (not mf and not close(vf, direct)) or (not mx and not close(vx, direct)):
+        return "cell with %d valid and %d missing rows: index cube (value, missing) %r, array cube %r, direct value %r" % (V, M, got["ccube"], got["xcube"], direct), desc
+    return None, None
+
+
+def run_agree(ctx, prop="C03"):
+    out, stale, fns = generate_agree()
+    if not out and not stale:
+        raise core.CheckerBroken("zero cell-wise agreement obligations")
+    bad = [o for o in out if o[1] != "unsat"]
+    for name, r, secs, model, meta in bad[:4]:
+        if r != "sat" or model is None:
+            raise core.Undecided("%s came back %s" % (name, r))
+        what, inp = replay_agree(meta, model)
+        ctx.violation(core.Violation(prop, name, "cell-wise obligation refuted by z3 with model %r%s" % (
+            {k: v for k, v in model.items() if k in ("V", "M", "Wv", "S")}, "; replayed on the real cube: " + what if what else ""),
+            input=inp, cls=dict(meta), solver={"model": model}, no_input=inp is None))
+    n = len(out)
+    return {"cellwise_obligations": n, "cellwise_discharged": n - len(bad), "cellwise_stale": stale, "cellwise_functions": fns,
+            "cellwise_solver_s": round(sum(o[2] for o in out), 3), "cellwise_samples": [{"obligation": o[0], "verdict": o[1]} for o in out[:: max(1, n // 8)]][:10]}
+
+
 def replay(meta, model):
     """Build a one-dimension cube whose cell 1 has V valid and M missing rows and evaluate the real aggregate
     under the configuration of the failed obligation. Returns failure text or None."""
